@@ -60,7 +60,7 @@ func genGates(r *rng, index int) *Spec {
 		sp.Timeline = append(sp.Timeline, TLEvent{AtMs: T0 - 200, Kind: "zk_delete", Arg: "/test/active_nodes"})
 	}
 	// master condition
-	cond := []string{"healthy", "mysql_dead", "host_dead", "isolated_from_manager", "isolated_from_zk", "fs_ro", "crash_recovered", "flapping", "manager_change", "mysql_dead"}[index%10]
+	cond := []string{"healthy", "mysql_dead", "host_dead", "isolated_from_manager", "isolated_from_zk", "fs_ro", "crash_recovered", "flapping", "manager_change", "mysql_dead", "crash_flag_brief_outage"}[index%11]
 	long := int64(r.pickInt(40000, 60000))
 	switch cond {
 	case "mysql_dead":
@@ -81,6 +81,12 @@ func genGates(r *rng, index int) *Spec {
 		sp.Timeline = append(sp.Timeline, TLEvent{AtMs: T0, Kind: "fs_ro", Host: master, N: 1, Fault: true})
 	case "crash_recovered":
 		sp.Timeline = append(sp.Timeline, TLEvent{AtMs: T0, Kind: "kill_host", Host: master, Arg: "crash_recovery", Fault: true, DurMs: int64(r.pickInt(3000, 8000))})
+	case "crash_flag_brief_outage":
+		// mysqld was restarted after a crash some time ago (its error log carries the crash-recovery
+		// line, the health record the flag); now a short plain outage, shorter than the failover delay
+		sp.Timeline = append(sp.Timeline, TLEvent{AtMs: T0 - 9000, Kind: "kill_mysql", Host: master, Arg: "crash_recovery", Fault: true, DurMs: int64(r.pickInt(800, 1500))})
+		d := c.FailoverDelayMs/2 + int64(r.pickInt(500, 1500))
+		sp.Timeline = append(sp.Timeline, TLEvent{AtMs: T0, Kind: "kill_mysql", Host: master, Fault: true, DurMs: d})
 	case "flapping":
 		d1 := c.FailoverDelayMs/2 + 500
 		sp.Timeline = append(sp.Timeline, TLEvent{AtMs: T0, Kind: "kill_mysql", Host: master, Fault: true, DurMs: d1})
